@@ -59,4 +59,37 @@ def tryPresets : List (String × Val) :=
   [("try_nan", .cell .nan), ("try_zero", .cell (.int 0)), ("try_none", .cell .none),
    ("try_true", .cell (.bool true)), ("try_false", .cell (.bool false)), ("try_list", .list [])]
 
+/-! ### `except Exception` does not catch everything (round k6)
+
+The handlers of `try_value.wrapped` / `try_back.wrapped` are `except Exception`: an exception that is a `BaseException` but not
+an `Exception` (`KeyboardInterrupt`, `SystemExit`, `GeneratorExit`, `asyncio.CancelledError`) passes through every one of them -
+out of the `repeat` loop too.  `catches e` says whether `e` is an `Exception`. -/
+
+/-- the outcome of a `try_*` wrapper given the outcome `r` of the wrapped function: the independent reading -/
+def resultOrB {E V : Type} (catches : E → Bool) (r : Except E V) (fallback : V) : Except E V :=
+  match r with
+  | .ok v => .ok v
+  | .error e => if catches e then .ok fallback else .error e
+
+/-- `try_value.wrapped` with `except Exception` catching exactly the exceptions `catches` -/
+def tryValueCodeB {A E V : Type} (catches : E → Bool) (f : A → Except E V) (rep : Nat) (returnValue : Bool) (value : V)
+    (a : A) : Except E V :=
+  match rep with
+  | 0 =>
+    if returnValue then
+      match f a with
+      | .ok v => .ok v
+      | .error e => if catches e then .ok value else .error e
+    else f a
+  | n + 1 =>
+    match f a with
+    | .ok v => .ok v
+    | .error e => if catches e then tryValueCodeB catches f n returnValue value a else .error e
+
+/-- `try_back.wrapped` likewise -/
+def tryBackCodeB {A E V : Type} (catches : E → Bool) (f : A → Except E V) (first : A → V) (a : A) : Except E V :=
+  match f a with
+  | .ok v => .ok v
+  | .error e => if catches e then .ok (first a) else .error e
+
 end Pyg
